@@ -60,7 +60,7 @@ def cycleSkeletons : List (String × List String) := [
     "$3=Vec::new()",
     "while(letSome($4)=state.stack.pop())",
     "$3.push($4)",
-    "if(v==$4)",
+    "if($4==v)",
     "break",
     "end",
     "end",
